@@ -19,13 +19,15 @@ var NaNNeg = math.Float64frombits(0xfff8000000000001)
 // FloatPool holds hostile non-NaN float values.
 var FloatPool = []float64{0, math.Copysign(0, -1), 1, -1, 0.5, -0.5, 1.5, 2, 3, 10, 0.1, 0.2, 0.3, 1e21, 1e-7, 123456789.125, -2.5,
 	math.Inf(1), math.Inf(-1), math.SmallestNonzeroFloat64, -math.SmallestNonzeroFloat64, math.MaxFloat64, -math.MaxFloat64,
-	2.2250738585072014e-308, 9007199254740993, 4503599627370496.5, 1e15, 1e16, 5e-324, 1.7976931348623157e308}
+	2.2250738585072014e-308, 9007199254740993, 4503599627370496.5, 1e15, 1e16, 5e-324, 1.7976931348623157e308,
+	9223372036854775808, -9223372036854775808, 18446744073709551616, 4611686018427387904, 9223372036854774784, 2147483648, 4294967296, 1e18, 1e19,
+	5.9604644775390625e-08, 36893488147419103232}
 
 // StringPool holds hostile strings (no CR inside; those are in StringPoolCR).
 var StringPool = []string{"", "a", "b", "c", "A", "B", "ab", "abc", "abd", "Ab", "aB", "b a", " a", "a ", " ", "a,b", "a;b", "a\tb", `a"b`, `"`, `""`, `"a"`, `'a'`,
 	"line\nfeed", "\n", "x\n", "\x00", "a\x00b", "é", "É", "ü", "日本", "日本語", "\xff", "a\xffb", "\xc3", "\xe2\x82", "ı", "İ", "ß", "ſ", "ǅ", "K", "ɐ", "ⱥ",
 	"\u0080", "a\u0080", " ", " ", "null", "NULL", "NaN", "0", "1", "-1", "1.5", "true", "false", "t", `\`, `\.`, `a\`, "%", "a%", "%a", "a.b", "a*", "[a]",
-	"zzzzzzzzzzzzzzzzzzzzzzzzzzzzzzzzzzzzzzzzzzzzzzzz", "const-temp-0", "$x", "0x10", "1e3", "+1", " 1", "∞", "𝔘", "\U0010ffff"}
+	"zzzzzzzzzzzzzzzzzzzzzzzzzzzzzzzzzzzzzzzzzzzzzzzz", "\uFFFD", "a\uFFFDb", "const-temp-0", "$x", "0x10", "1e3", "+1", " 1", "∞", "𝔘", "\U0010ffff"}
 
 // StringPoolCR holds strings with carriage returns.
 var StringPoolCR = []string{"a\rb", "\r", "a\r\nb", "x\r"}
